@@ -36,6 +36,11 @@ def base_scenarios(rng, real=False):
     for size in (10, 20):
         out.append({'min_part': 8, 'config': dict(cfg), 'transfers': [{'kind': 'copy', 'size': size}]})
     out.append({'config': dict(cfg), 'transfers': [{'kind': 'delete', 'size': 3}]})
+    # multipart transfers of exactly ONE part (multipart_threshold <= size <= multipart_chunksize)
+    cfg1 = dict(cfg, multipart_threshold=8, multipart_chunksize=16)
+    for t in ({'kind': 'upload', 'src': 'path', 'size': 12}, {'kind': 'upload', 'src': 'nonseekable', 'size': 12}, {'kind': 'copy', 'size': 12},
+              {'kind': 'download', 'dst': 'path', 'size': 12}, {'kind': 'download', 'dst': 'nonseekable', 'size': 12}):
+        out.append({'min_part': 16, 'config': dict(cfg1), 'transfers': [t]})
     # provided size (no HeadObject), when_required checksum mode, http scheme
     out.append({'min_part': 8, 'config': dict(cfg), 'client': {'checksum': 'when_required', 'scheme': 'http'},
                 'transfers': [{'kind': 'upload', 'src': 'path', 'size': 20}]})
